@@ -33,7 +33,8 @@ def key_pool(kind):
         return [pd.Timestamp("2020-01-01"), pd.Timestamp("1999-12-31 23:59:59"), pd.Timestamp("2020-01-01 00:00:00.500"),
                 pd.Timestamp("2021-06-15 12:00:00.000001")]
     if kind == "str":
-        return ["a", "1", "1.5", "True", "nan", "2020-01-01", " x y", "é", "a.b"]
+        # "1" and "True" adjacent: as parsed values (drill) they are equal in Python (1 == True)
+        return ["1", "True", "a", "1.5", "nan", "2020-01-01", " x y", "é", "a.b"]
     if kind == "cat_str":
         return ["u", "v", "w"]
     if kind == "cat_int":
@@ -249,7 +250,8 @@ def run(p):
                                 want = sorted({repr(v[ci]) for v in exp_rows.values()})
                                 got = sorted({repr(canon_key(v)) for v in pf.cats.get(c, [])})
                                 if got != want:
-                                    bad("cats", "%s: pf.cats[%s]=%r, keys used %r" % (what, c, got, want), col=ci)
+                                    bad("cats", "%s: pf.cats[%s]=%r, keys used %r" % (what, c, got, want), col=ci,
+                                        pk=[k1, k2, "int"][ci])
     ok = not sigs
     return {"ok": ok, "outcome": "preserved" if ok else "differs", "nontrivial": datasets > 0,
             "counts": {"datasets": datasets}, "sig": list(sigs.values()) or None, "detail": detail[0]}
